@@ -1,9 +1,12 @@
 package main
 
 import (
+	"fmt"
 	"go/ast"
 	"go/token"
 	"go/types"
+	"sort"
+	"strings"
 
 	"golang.org/x/tools/go/packages"
 )
@@ -98,4 +101,159 @@ func checkC15LoopState(res *Result, pkgs []*packages.Package) {
 	if nLoops > 0 {
 		res.ok(rule, "astool", "-", "no loop of astool assigns a field of an outer struct variable and appends that variable by value")
 	}
+}
+
+// C15-R8 — reference nodes act on every vocabulary (D18). References (the rdf and xsd value
+// vocabularies) are carried over from one parsed vocabulary to the next; a node that, besides
+// registering its value in the reference, also writes the vocabulary being parsed
+// (ctx.Result.Vocab — rdf:langString marks natural-language-map properties) must therefore be
+// given the chance to act again when a later vocabulary references the value that already
+// exists: it has an ApplyToVocabulary hook with that effect, and resolveReference calls the hook
+// on its "already there" branch.
+func checkReferenceNodesPerVocabulary(res *Result, pkgs []*packages.Package) {
+	const rule = "C15-R8"
+	res.Rule(rule, "reference nodes act on every vocabulary: a node whose Apply both registers a value in a carried-over reference vocabulary and writes the vocabulary being parsed has an ApplyToVocabulary hook with the same per-vocabulary effect, and resolveReference calls it where the value already exists (D18)")
+	writesCurrentVocab := func(n ast.Node) bool {
+		hit := false
+		ast.Inspect(n, func(m ast.Node) bool {
+			switch x := m.(type) {
+			case *ast.AssignStmt:
+				for _, l := range x.Lhs {
+					if strings.HasPrefix(types.ExprString(l), "ctx.Result.Vocab.") {
+						hit = true
+					}
+				}
+			case *ast.CallExpr:
+				if strings.HasPrefix(types.ExprString(x.Fun), "ctx.Result.Vocab.Set") {
+					hit = true
+				}
+			}
+			return true
+		})
+		return hit
+	}
+	nApply, nBoth := 0, 0
+	for _, p := range pkgs {
+		if !strings.Contains(p.PkgPath, "/astool/rdf") {
+			continue
+		}
+		// methods by receiver type name
+		methods := map[string]map[string]*ast.FuncDecl{}
+		for _, f := range p.Syntax {
+			for _, d := range f.Decls {
+				if fd, ok := d.(*ast.FuncDecl); ok && fd.Recv != nil && fd.Body != nil {
+					name := funcDeclName(fd)
+					i := strings.Index(name, ".")
+					if methods[name[:i]] == nil {
+						methods[name[:i]] = map[string]*ast.FuncDecl{}
+					}
+					methods[name[:i]][name[i+1:]] = fd
+				}
+			}
+		}
+		// body of a method together with the methods of the same receiver it calls (two levels)
+		closure := func(typ string, fd *ast.FuncDecl) []ast.Node {
+			out := []ast.Node{fd.Body}
+			seen := map[*ast.FuncDecl]bool{fd: true}
+			frontier := []*ast.FuncDecl{fd}
+			for depth := 0; depth < 2; depth++ {
+				var next []*ast.FuncDecl
+				for _, g := range frontier {
+					ast.Inspect(g.Body, func(m ast.Node) bool {
+						if c, ok := m.(*ast.CallExpr); ok {
+							if sel, ok := c.Fun.(*ast.SelectorExpr); ok {
+								if h := methods[typ][sel.Sel.Name]; h != nil && !seen[h] {
+									if id, ok := sel.X.(*ast.Ident); ok && g.Recv != nil && len(g.Recv.List[0].Names) == 1 && id.Name == g.Recv.List[0].Names[0].Name {
+										seen[h] = true
+										out = append(out, h.Body)
+										next = append(next, h)
+									}
+								}
+							}
+						}
+						return true
+					})
+				}
+				frontier = next
+			}
+			return out
+		}
+		var typs []string
+		for t := range methods {
+			typs = append(typs, t)
+		}
+		sort.Strings(typs)
+		for _, typ := range typs {
+			ap := methods[typ]["Apply"]
+			if ap == nil || ap.Type.Params == nil || ap.Type.Params.NumFields() != 3 {
+				continue
+			}
+			nApply++
+			registers, writes := false, false
+			for _, b := range closure(typ, ap) {
+				ast.Inspect(b, func(m ast.Node) bool {
+					if c, ok := m.(*ast.CallExpr); ok {
+						if sel, ok := c.Fun.(*ast.SelectorExpr); ok && sel.Sel.Name == "GetResultReferenceWithDefaults" {
+							registers = true
+						}
+					}
+					return true
+				})
+				if writesCurrentVocab(b) {
+					writes = true
+				}
+			}
+			if !registers || !writes {
+				continue
+			}
+			nBoth++
+			hook := methods[typ]["ApplyToVocabulary"]
+			okHook := false
+			if hook != nil {
+				for _, b := range closure(typ, hook) {
+					if writesCurrentVocab(b) {
+						okHook = true
+					}
+				}
+			}
+			res.check(okHook, rule, typ+".Apply", relPos(p.Fset, ap.Pos()), "the node's effect on the vocabulary being parsed is also available as ApplyToVocabulary", "Apply registers a value in a reference vocabulary that is carried over to later vocabularies and also writes ctx.Result.Vocab, but there is no ApplyToVocabulary with that effect: for every vocabulary after the first the effect is lost (an extension's natural language map properties are not recognised)")
+		}
+		// resolveReference
+		for _, f := range p.Syntax {
+			for _, d := range f.Decls {
+				fd, ok := d.(*ast.FuncDecl)
+				if !ok || fd.Body == nil || fd.Recv != nil || fd.Name.Name != "resolveReference" {
+					continue
+				}
+				found, okCall := false, false
+				ast.Inspect(fd.Body, func(m ast.Node) bool {
+					ifs, ok := m.(*ast.IfStmt)
+					if !ok {
+						return true
+					}
+					txt := ""
+					if ifs.Init != nil {
+						if as, ok := ifs.Init.(*ast.AssignStmt); ok && len(as.Rhs) == 1 {
+							txt = types.ExprString(as.Rhs[0])
+						}
+					}
+					if strings.Contains(txt, ".Values[") {
+						found = true
+						ast.Inspect(ifs.Body, func(k ast.Node) bool {
+							if c, ok := k.(*ast.CallExpr); ok {
+								if sel, ok := c.Fun.(*ast.SelectorExpr); ok && sel.Sel.Name == "ApplyToVocabulary" {
+									okCall = true
+								}
+							}
+							return true
+						})
+					}
+					return true
+				})
+				res.check(found && okCall, rule, "resolveReference", relPos(p.Fset, fd.Pos()), "where the referenced value already exists (registered while an earlier vocabulary was parsed) the node's ApplyToVocabulary hook is called", fmt.Sprintf("branch for an existing value found: %v; hook called there: %v", found, okCall))
+			}
+		}
+	}
+	res.Count(rule+" Apply methods of RDF nodes examined", nApply, 20)
+	res.Count(rule+" nodes that register a reference value and write the current vocabulary", nBoth, 1)
 }
